@@ -29,6 +29,7 @@ func NewTomlDecoder() Decoder {
 
 func (dec *tomlDecoder) Init(reader io.Reader) error {
 	dec.parser = toml.Parser{}
+	dec.finished = false
 	buf := new(bytes.Buffer)
 	_, err := buf.ReadFrom(reader)
 	if err != nil {
